@@ -170,11 +170,13 @@ request is treated as being under the secret prefix only if the request-target i
 with it — a token in the query string or fragment does not count. -/
 theorem C18_origin_form_literal (rest pfx p : List Char) (hp : pathOfTarget ('/' :: rest) = some p)
     (h : pfx <+: p) : pfx <+: '/' :: rest := by
-  have : p = ('/' :: rest).takeWhile (! isPathEnd ·) := by
-    simp only [pathOfTarget] at hp
-    exact (Option.some.inj hp).symm
-  rw [this] at h
-  exact List.IsPrefix.trans h (List.takeWhile_prefix _)
+  apply List.IsPrefix.trans h
+  unfold pathOfTarget at hp
+  split at hp
+  · cases hp
+  · cases rest with
+    | nil => simp only at hp; cases hp; exact List.prefix_refl _
+    | cons c r => simp only at hp; exact pathScan_prefix _ _ hp
 
 /-! ### "whatever the headers": the header map is a component of the request -/
 
@@ -234,6 +236,9 @@ token, HTTP version, headers and body are arbitrary. (Prefix = `"/"` + a non-emp
 theorem C18_wire (cfg : Cfg) (w : WireReq) (hslash : cfg.pfx.head? = some '/') (hlen : 2 ≤ cfg.pfx.length)
     (h : (serveWire cfg w).exposes = true) : LiteralUnder cfg.pfx w.target := by
   unfold serveWire at h
+  by_cases hok : httparseTargetOk w.target = true
+  case neg => simp [hok, WireOut.exposes] at h
+  simp only [hok, Bool.not_true, Bool.false_eq_true, if_false] at h
   cases hp : pathOfTarget w.target with
   | none => rw [hp] at h; simp [WireOut.exposes] at h
   | some p =>
@@ -255,6 +260,8 @@ theorem C18_wire_outside (cfg : Cfg) (w : WireReq) (hslash : cfg.pfx.head? = som
     serveWire cfg w = .rejected ∨
     ∃ r, serveWire cfg w = .resp r ∧ r.anyCors = false ∧
       (r.kind = .landing cfg.profile.isSome ∨ (r.kind = .notFound ∧ r.status = 404)) := by
+  by_cases hok : httparseTargetOk w.target = true
+  case neg => left; simp [serveWire, hok]
   cases hp : pathOfTarget w.target with
   | none => left; simp [serveWire, hp]
   | some p =>
@@ -263,7 +270,7 @@ theorem C18_wire_outside (cfg : Cfg) (w : WireReq) (hslash : cfg.pfx.head? = som
     obtain ⟨r, hr, hnc, _, hk, _, h404⟩ := C18_no_prefix cfg
       { method := methodOfToken w.methodTok, path := p, headers := w.headers, bodyUtf8 := w.bodyUtf8 } hpre
     refine ⟨r, ?_, hnc, ?_⟩
-    · simp [serveWire, hp, hr]
+    · simp [serveWire, hok, hp, hr]
     · rcases hk with hk | hk
       · exact Or.inl hk
       · exact Or.inr ⟨hk, h404 hk⟩
